@@ -174,4 +174,112 @@ Definition check_case (c : case) : nat :=
   | n => n
   end.
 
+
+(* ================= two blob types (data = false, tree = true) =================
+   The Go set keeps one value/isSet array pair per blob type (a.byType[bh.Type]) and one overflow
+   map keyed by the whole handle; All() walks the overflow map and then MasterIndex.Values(), whose
+   order is the concatenation over the sub-indexes (merged idx[0] first, then the not yet merged /
+   in-memory ones), each sub-index listing its data entries and then its tree entries; seen[] is
+   kept per type.  [main2] = entries of idx[0], [rest2] = entries of the other indexes, both in
+   enumeration order with their types.  Each component [aset] is the per-type part (array pair +
+   the overflow entries of that type). *)
+Definition handle2 := (bool * N)%type.
+Record aset2 := mkS2 { a_data : aset; a_tree : aset }.
+Definition sel (a : aset2) (t : bool) : aset := if t then a_tree a else a_data a.
+Definition upd_sel (a : aset2) (t : bool) (x : aset) : aset2 :=
+  if t then mkS2 (a_data a) x else mkS2 x (a_tree a).
+Definition proj (t : bool) (l : list handle2) : list N :=
+  map snd (filter (fun h => Bool.eqb (fst h) t) l).
+Definition new_set2 (capD capT : nat) : aset2 := mkS2 (new_set capD) (new_set capT).
+
+Inductive op2 := OSet2 (h : handle2) (v : N) | ODel2 (h : handle2).
+
+Section WithIndex2.
+Variables main2 rest2 : list handle2.
+
+Definition get2 (a : aset2) (h : handle2) : option N :=
+  get (proj (fst h) main2) (sel a (fst h)) (snd h).
+Definition set2 (a : aset2) (h : handle2) (v : N) : aset2 :=
+  upd_sel a (fst h) (set (proj (fst h) main2) (sel a (fst h)) (snd h) v).
+Definition delete2 (a : aset2) (h : handle2) : aset2 :=
+  upd_sel a (fst h) (delete (proj (fst h) main2) (sel a (fst h)) (snd h)).
+
+(* the Values() loop of All() with seen[type][idx] *)
+Fixpoint scan2 (a : aset2) (vals : list handle2) (seenD seenT : list nat) : list (handle2 * N) :=
+  match vals with
+  | [] => []
+  | h :: r =>
+      let s := sel a (fst h) in
+      match assoc (snd h) (s_over s) with
+      | Some _ => scan2 a r seenD seenT
+      | None =>
+          match slot (proj (fst h) main2) s (snd h) with
+          | None => scan2 a r seenD seenT
+          | Some i =>
+              match nth i (s_arr s) None with
+              | None => scan2 a r seenD seenT
+              | Some v =>
+                  if memn i (if fst h then seenT else seenD) then scan2 a r seenD seenT
+                  else (h, v) :: (if fst h then scan2 a r seenD (i :: seenT)
+                                  else scan2 a r (i :: seenD) seenT)
+              end
+          end
+      end
+  end.
+
+Definition all2 (a : aset2) : list (handle2 * N) :=
+  map (fun e => ((false, fst e), snd e)) (s_over (a_data a)) ++
+  map (fun e => ((true, fst e), snd e)) (s_over (a_tree a)) ++
+  scan2 a (main2 ++ rest2) [] [].
+Definition len2 (a : aset2) : nat := length (all2 a).
+
+Definition apply2 (a : aset2) (o : op2) : aset2 :=
+  match o with OSet2 h v => set2 a h v | ODel2 h => delete2 a h end.
+Definition run2 (a : aset2) (ops : list op2) : aset2 := fold_left apply2 ops a.
+End WithIndex2.
+
+(* per-type views *)
+Definition projr (t : bool) (l : list (handle2 * N)) : list (N * N) :=
+  map (fun e => (snd (fst e), snd e)) (filter (fun e => Bool.eqb (fst (fst e)) t) l).
+Fixpoint ops_of (t : bool) (ops : list op2) : list op :=
+  match ops with
+  | [] => []
+  | OSet2 h v :: r => if Bool.eqb (fst h) t then OSet (snd h) v :: ops_of t r else ops_of t r
+  | ODel2 h :: r => if Bool.eqb (fst h) t then ODel (snd h) :: ops_of t r else ops_of t r
+  end.
+
+(* a mixed-type observation: Len() and All() of one set over one MasterIndex *)
+Record case2 := mk2 { c2_main : list handle2; c2_rest : list handle2; c2_capD : nat; c2_capT : nat;
+                      c2_ops : list op2; c2_len : N; c2_all : list (handle2 * N) }.
+
+Definition enc (h : handle2) : N := (2 * snd h + (if fst h then 1 else 0))%N.
+Definition encl (l : list (handle2 * N)) : list (N * N) := map (fun e => (enc (fst e), snd e)) l.
+
+(* Codes as for [check_code]: 2 a member reported twice, 3 Len() <> number of distinct members,
+   4 All() is not the content (per type) *)
+Definition check_code2 (c : case2) : nat :=
+  let mD := ref_run (ops_of false (c2_ops c)) in
+  let mT := ref_run (ops_of true (c2_ops c)) in
+  if negb (nodupb (map fst (encl (c2_all c)))) then 2
+  else if negb (N.eqb (c2_len c) (N.of_nat (length mD + length mT))) then 3
+  else if negb (same_map (projr false (c2_all c)) mD) then 4
+  else if negb (same_map (projr true (c2_all c)) mT) then 4
+  else 0.
+Definition check_C48_2 (c : case2) : bool := Nat.eqb (check_code2 c) 0.
+
+Definition check_case2 (c : case2) : nat :=
+  match check_code2 c with
+  | O =>
+      let a := run2 (c2_main c) (new_set2 (c2_capD c) (c2_capT c)) (c2_ops c) in
+      if andb (list_eqb pair_eqb (sortp (encl (c2_all c))) (sortp (encl (all2 (c2_main c) (c2_rest c) a))))
+              (N.eqb (c2_len c) (N.of_nat (len2 (c2_main c) (c2_rest c) a)))
+      then 0 else 1
+  | n => n
+  end.
+
+(* what the engine emits: per-type projections (K1) and whole mixed-type sets (K2) *)
+Inductive anycase := K1 (c : case) | K2 (c : case2).
+Definition check_any (c : anycase) : nat :=
+  match c with K1 c1 => check_case c1 | K2 c2 => check_case2 c2 end.
+
 End C48m.
